@@ -26,6 +26,13 @@ fn to_rules(c: &SortCase) -> Vec<Rule>
     c.rules.iter().map(|(t, s, k)| Rule::new(t.clone(), s.clone(), k.clone())).collect()
 }
 
+/// The parser returns paths in bundle order, which is not always string order (a directory `lib` next to a file
+/// `lib.d`): the same rules with their path lists in another order must give the same plan.
+fn to_rules_lists_shuffled(c: &SortCase, seed: u64) -> Vec<Rule>
+{
+    c.rules.iter().enumerate().map(|(i, (t, s, k))| Rule::new(shuffled(t, seed.wrapping_add(i as u64 * 2 + 1)), shuffled(s, seed.wrapping_add(i as u64 * 2 + 2)), k.clone())).collect()
+}
+
 fn shuffled<T: Clone>(v: &[T], seed: u64) -> Vec<T>
 {
     let mut out = v.to_vec();
@@ -45,6 +52,103 @@ fn run_sort(rules: Vec<Rule>, goal: Option<&str>) -> Result<NodePack, Topologica
         Some(g) => topological_sort(rules, g),
         None => topological_sort_all(rules),
     }
+}
+
+/// All structural requirements on an accepted plan (membership, order, bindings, leaves, identity).
+fn validate(pack: &NodePack, prules: &[PRule], a: &crate::verif::oracle::refsort::Analysis) -> Result<(), String>
+{
+    if !a.valid()
+    {
+        return Err(format!("invalid rule set accepted (dup={}, goal_missing={}, cycle={}, self_loop={})",
+            a.duplicate_target, a.goal_missing, a.cycle, a.self_loop));
+    }
+    // nodes = exactly the reachable rules, each once
+    let mut by_targets: BTreeMap<Vec<String>, usize> = BTreeMap::new();
+    for i in a.reachable.iter()
+    {
+        let mut t = prules[*i].targets.clone();
+        t.sort();
+        by_targets.insert(t, *i);
+    }
+    if pack.nodes.len() != a.reachable.len()
+    {
+        return Err(format!("plan has {} nodes, {} rules are required", pack.nodes.len(), a.reachable.len()));
+    }
+    let mut seen = BTreeSet::new();
+    let mut owner: BTreeMap<&str, (usize, usize)> = BTreeMap::new(); // target -> (node index, sub index)
+    for (ni, n) in pack.nodes.iter().enumerate()
+    {
+        let ri = match by_targets.get(&n.targets)
+        {
+            Some(r) => *r,
+            None => return Err(format!("plan node {} with targets {:?} is not a required rule (or its targets changed)", ni, n.targets)),
+        };
+        if !seen.insert(ri)
+        {
+            return Err(format!("rule {:?} appears twice in the plan", n.targets));
+        }
+        if n.command != prules[ri].command
+        {
+            return Err(format!("command of rule {:?} changed", n.targets));
+        }
+        let want_ticket = Rule::new(prules[ri].targets.clone(), prules[ri].sources.clone(), prules[ri].command.clone()).get_ticket();
+        if n.rule_ticket != want_ticket
+        {
+            return Err(format!("rule identity of {:?} changed", n.targets));
+        }
+        for (si, t) in n.targets.iter().enumerate()
+        {
+            owner.insert(t.as_str(), (ni, si));
+        }
+    }
+    // leaves sorted, exact
+    let want_leaves: Vec<String> = a.leaves.iter().cloned().collect();
+    if pack.leaves != want_leaves
+    {
+        return Err(format!("leaves {:?}, expected {:?}", pack.leaves, want_leaves));
+    }
+    let all_targets: BTreeSet<&str> = prules.iter().flat_map(|r| r.targets.iter().map(|t| t.as_str())).collect();
+    for (ni, n) in pack.nodes.iter().enumerate()
+    {
+        let ri = by_targets[&n.targets];
+        let mut srcs = prules[ri].sources.clone();
+        srcs.sort();
+        if n.source_indices.len() != srcs.len()
+        {
+            return Err(format!("node {:?} has {} source bindings for {} sources", n.targets, n.source_indices.len(), srcs.len()));
+        }
+        // every source must be bound exactly once; binding order is the sorted source order
+        for (k, s) in srcs.iter().enumerate()
+        {
+            match &n.source_indices[k]
+            {
+                SourceIndex::Leaf(i) =>
+                {
+                    if *i >= pack.leaves.len() || pack.leaves[*i] != *s
+                    {
+                        return Err(format!("node {:?}: source {} bound to leaf #{} = {:?}", n.targets, s, i, pack.leaves.get(*i)));
+                    }
+                    if all_targets.contains(s.as_str())
+                    {
+                        return Err(format!("node {:?}: source {} is a rule's target but bound as a leaf", n.targets, s));
+                    }
+                }
+                SourceIndex::Pair(i, sub) =>
+                {
+                    if *i >= ni
+                    {
+                        return Err(format!("node #{} {:?} depends on node #{} which does not come before it", ni, n.targets, i));
+                    }
+                    let got = pack.nodes[*i].targets.get(*sub);
+                    if got != Some(s)
+                    {
+                        return Err(format!("node {:?}: source {} bound to node #{} target #{} = {:?}", n.targets, s, i, sub, got));
+                    }
+                }
+            }
+        }
+    }
+    Ok(())
 }
 
 pub fn check(c: &SortCase) -> Result<(), String>
@@ -82,96 +186,14 @@ pub fn check(c: &SortCase) -> Result<(), String>
         }
         Ok(pack) =>
         {
-            if !a.valid()
+            validate(pack, &prules, &a)?;
+            // the parser returns paths in bundle order, which is not always string order: with the path lists inside the
+            // rules in another order the plan must still be accepted and valid (it need not be the identical plan: the
+            // property promises that only for re-ordering the rules)
+            match run_sort(to_rules_lists_shuffled(c, c.shuffle_seed ^ 0x51), c.goal.as_deref())
             {
-                return Err(format!("invalid rule set accepted (dup={}, goal_missing={}, cycle={}, self_loop={})",
-                    a.duplicate_target, a.goal_missing, a.cycle, a.self_loop));
-            }
-            // nodes = exactly the reachable rules, each once
-            let mut by_targets: BTreeMap<Vec<String>, usize> = BTreeMap::new();
-            for i in a.reachable.iter()
-            {
-                let mut t = prules[*i].targets.clone();
-                t.sort();
-                by_targets.insert(t, *i);
-            }
-            if pack.nodes.len() != a.reachable.len()
-            {
-                return Err(format!("plan has {} nodes, {} rules are required", pack.nodes.len(), a.reachable.len()));
-            }
-            let mut seen = BTreeSet::new();
-            let mut owner: BTreeMap<&str, (usize, usize)> = BTreeMap::new(); // target -> (node index, sub index)
-            for (ni, n) in pack.nodes.iter().enumerate()
-            {
-                let ri = match by_targets.get(&n.targets)
-                {
-                    Some(r) => *r,
-                    None => return Err(format!("plan node {} with targets {:?} is not a required rule (or its targets changed)", ni, n.targets)),
-                };
-                if !seen.insert(ri)
-                {
-                    return Err(format!("rule {:?} appears twice in the plan", n.targets));
-                }
-                if n.command != prules[ri].command
-                {
-                    return Err(format!("command of rule {:?} changed", n.targets));
-                }
-                let want_ticket = Rule::new(prules[ri].targets.clone(), prules[ri].sources.clone(), prules[ri].command.clone()).get_ticket();
-                if n.rule_ticket != want_ticket
-                {
-                    return Err(format!("rule identity of {:?} changed", n.targets));
-                }
-                for (si, t) in n.targets.iter().enumerate()
-                {
-                    owner.insert(t.as_str(), (ni, si));
-                }
-            }
-            // leaves sorted, exact
-            let want_leaves: Vec<String> = a.leaves.iter().cloned().collect();
-            if pack.leaves != want_leaves
-            {
-                return Err(format!("leaves {:?}, expected {:?}", pack.leaves, want_leaves));
-            }
-            let all_targets: BTreeSet<&str> = prules.iter().flat_map(|r| r.targets.iter().map(|t| t.as_str())).collect();
-            for (ni, n) in pack.nodes.iter().enumerate()
-            {
-                let ri = by_targets[&n.targets];
-                let mut srcs = prules[ri].sources.clone();
-                srcs.sort();
-                if n.source_indices.len() != srcs.len()
-                {
-                    return Err(format!("node {:?} has {} source bindings for {} sources", n.targets, n.source_indices.len(), srcs.len()));
-                }
-                // every source must be bound exactly once; binding order is the sorted source order
-                for (k, s) in srcs.iter().enumerate()
-                {
-                    match &n.source_indices[k]
-                    {
-                        SourceIndex::Leaf(i) =>
-                        {
-                            if *i >= pack.leaves.len() || pack.leaves[*i] != *s
-                            {
-                                return Err(format!("node {:?}: source {} bound to leaf #{} = {:?}", n.targets, s, i, pack.leaves.get(*i)));
-                            }
-                            if all_targets.contains(s.as_str())
-                            {
-                                return Err(format!("node {:?}: source {} is a rule's target but bound as a leaf", n.targets, s));
-                            }
-                        }
-                        SourceIndex::Pair(i, sub) =>
-                        {
-                            if *i >= ni
-                            {
-                                return Err(format!("node #{} {:?} depends on node #{} which does not come before it", ni, n.targets, i));
-                            }
-                            let got = pack.nodes[*i].targets.get(*sub);
-                            if got != Some(s)
-                            {
-                                return Err(format!("node {:?}: source {} bound to node #{} target #{} = {:?}", n.targets, s, i, sub, got));
-                            }
-                        }
-                    }
-                }
+                Ok(p3) => validate(&p3, &prules, &a).map_err(|m| format!("with the path lists inside the rules in another order: {}", m))?,
+                Err(e) => return Err(format!("accepted, but rejected with {:?} when the path lists inside the rules are given in another order", e)),
             }
             // same plan for any ordering of the input
             let res2 = run_sort(shuffled(&to_rules(c), c.shuffle_seed), c.goal.as_deref());
